@@ -10,6 +10,9 @@ import (
 )
 
 func init() {
+	register(&Rule{ID: "C02.R9", Prop: "C02", Floor: 9,
+		Doc: "(= C12.R1 for the block and exception opcodes) the handlers of SETUP_*/POP_BLOCK/POP_EXCEPT/END_FINALLY/WITH_CLEANUP/RAISE_VARARGS/BREAK_LOOP/CONTINUE_LOOP leave the value stack at the height the compiler's table predicts on every successful path: the exception state is saved on and restored from that stack, so a handler off by a slot restores the wrong exception",
+		Run: runC02R9})
 	register(&Rule{ID: "C12.R1", Prop: "C12", Floor: 95,
 		Doc: "handler stack effect = compiler's table: every opcode handler is interpreted path by path over an abstract stack (primitives inlined from their own bodies, heights linear in the operand and its bit-fields); each successful path's net effect must equal opcodeStackEffect(op, arg) (or, for jump opcodes, the fall-through/jump-taken value stackDepthWalk models; for the block-reservation opcodes, stay within the reservation)",
 		Run: runC12R1})
@@ -243,6 +246,20 @@ var variableOps = map[string][]string{
 	"POP_EXCEPT":   {"unwind"},
 }
 
+// the opcodes that carry exceptions and blocks: their handlers' stack effects are C02's business as well — the
+// exception state is saved on and restored from the value stack, so a handler that leaves the stack at another height
+// than the compiler predicts restores the wrong exception
+var c02StackOps = map[string]bool{"POP_EXCEPT": true, "END_FINALLY": true, "POP_BLOCK": true, "SETUP_EXCEPT": true, "SETUP_FINALLY": true,
+	"SETUP_LOOP": true, "SETUP_WITH": true, "WITH_CLEANUP": true, "RAISE_VARARGS": true, "BREAK_LOOP": true, "CONTINUE_LOOP": true}
+
+var c12R1Only map[string]bool
+
+func runC02R9(c *Ctx, r *Rep) {
+	c12R1Only = c02StackOps
+	defer func() { c12R1Only = nil }()
+	runC12R1(c, r)
+}
+
 func runC12R1(c *Ctx, r *Rep) {
 	m := getVMModel(c)
 	seVM := newSymExec(c, "vm")
@@ -257,6 +274,9 @@ func runC12R1(c *Ctx, r *Rep) {
 	for _, op := range m.opNames() {
 		h := m.handlers[op]
 		if h == nil || h == m.defaultH {
+			continue
+		}
+		if c12R1Only != nil && !c12R1Only[op] {
 			continue
 		}
 		fd := c.Decl(h)
